@@ -56,6 +56,8 @@ def units(tier):
                 continue  # symmetric to (None, 1.0)
             u.append(U(f"cond.2w1n_final_all[{t1},{t2},{ua}]",
                        dict(waiters=2, notifiers=1, final="notify_all", fixed={"in.timeout.1": t1, "in.timeout.2": t2, "in.all.0": ua}), 46, 3000))
+        u.append(U("cond.2w_final_all.interrupt.Lock", dict(waiters=2, notifiers=0, final="notify_all", interrupt=True, lock_cls="Lock"), 40, 3000))
+        u.append(U("cond.2w_single_notify.interrupt", dict(waiters=2, notifiers=0, final="notify", interrupt=True), 40, 3000))
         u.append(U("cond.2w_single_notify.Lock", dict(waiters=2, notifiers=0, final="notify", lock_cls="Lock"), 34))
         u.append(U("event.2w_1s.xproc", dict(kind="event", waiters=2, setters=1, same_process=False), 38))
         u.append(U("event.2w_1s_1c", dict(kind="event", waiters=2, setters=1, clearers=1), 46, 3000))
